@@ -22,6 +22,7 @@ import (
 //	compview G (a u v | r u v)*                            (edits are applied to the underlying graph)
 //	indview G k V1..Vk (a u v | r u v)*
 //	split G i j | contract G i j
+//	tseq G (c i j | s i j)*                                (a sequence of Contract / SplitEdge applied in place)
 //	random n p seed b0 b1 ...    (bi = outcome of the i-th "r.Float64() < p" of the stream of that seed)
 //	randtree n seed c0 c1 ...    (ci = i-th r.Intn(n) of the stream of that seed)
 //	prufer c0 c1 ... | multicode b0 b1 ...
@@ -782,6 +783,97 @@ func c06Run(args []string) Result {
 		})
 		return ret(out)
 
+	case "tseq":
+		g, r := parseEG(rest)
+		if len(r)%3 != 0 {
+			return Result{Out: "bad-op"}
+		}
+		gd, gs := graph.EditableGraph(g.Dense()), graph.EditableGraph(g.Sparse())
+		cur := g.Adj()
+		outs := []string{}
+		observe := func(step string) bool {
+			n := len(cur)
+			a := cur
+			def := func(o c06Obs) string {
+				return c06Same(o, "after "+step, n, func(u, v int) bool { return a[u][v] })
+			}
+			o := finish(gd, false, def)
+			if w := c06WF(gs, false); w != "" {
+				fail("tseq on a SparseGraph after %s: not well formed: %s", step, w)
+			}
+			if os, ok := c06Observe(gs); !ok || os.String() != o {
+				fail("tseq after %s: SparseGraph %s differs from DenseGraph %s", step, os.String(), o)
+			}
+			outs = append(outs, o)
+			return o != "panic"
+		}
+		observe("construction")
+		for k := 0; k < len(r); k += 3 {
+			op, i, j := r[k], atoi(r[k+1]), atoi(r[k+2])
+			n := len(cur)
+			step := fmt.Sprintf("step %d (%s %d %d)", k/3+1, op, i, j)
+			if (op != "c" && op != "s") || i < 0 || j < 0 || i >= n || j >= n {
+				return Result{Out: "bad-op"}
+			}
+			if op == "s" && i == j {
+				// documented panic, nothing may have been modified; the whole line is a panic
+				pd := guard(func() string { graph.SplitEdge(gd, i, j); return "ok" })
+				ps := guard(func() string { graph.SplitEdge(gs, i, j); return "ok" })
+				if pd != "panic" || ps != "panic" {
+					fail("SplitEdge(g, %d, %d) must panic", i, j)
+				}
+				return ret("panic", "rejected")
+			}
+			var pd, ps string
+			if op == "c" {
+				pd = guard(func() string { graph.Contract(gd, i, j); return "ok" })
+				ps = guard(func() string { graph.Contract(gs, i, j); return "ok" })
+				// expectation: i receives the neighbours of j, then row/column j is deleted
+				nb := make([]bool, n)
+				copy(nb, cur[j])
+				for v := 0; v < n; v++ {
+					if nb[v] && v != i {
+						cur[i][v], cur[v][i] = true, true
+					}
+				}
+				next := [][]bool{}
+				for u := 0; u < n; u++ {
+					if u == j {
+						continue
+					}
+					row := []bool{}
+					for v := 0; v < n; v++ {
+						if v != j {
+							row = append(row, cur[u][v])
+						}
+					}
+					next = append(next, row)
+				}
+				cur = next
+			} else {
+				pd = guard(func() string { graph.SplitEdge(gd, i, j); return "ok" })
+				ps = guard(func() string { graph.SplitEdge(gs, i, j); return "ok" })
+				cur[i][j], cur[j][i] = false, false
+				for u := range cur {
+					cur[u] = append(cur[u], u == i || u == j)
+				}
+				last := make([]bool, n+1)
+				last[i], last[j] = true, true
+				cur = append(cur, last)
+			}
+			if pd == "panic" || ps == "panic" {
+				fail("tseq %s panicked (dense: %s, sparse: %s)", step, pd, ps)
+				return ret("panic")
+			}
+			if !observe(step) {
+				return ret("panic")
+			}
+		}
+		if len(r) >= 6 {
+			tag("nontrivial")
+		}
+		return ret(strings.Join(outs, " ; "))
+
 	case "random":
 		n := atoi(rest[0])
 		p, err := strconv.ParseFloat(rest[1], 64)
@@ -1239,6 +1331,60 @@ func c06Gen(r *rand.Rand, tier string, emit func(string)) {
 	}
 	for c := 0; c < cases; c++ {
 		trans(genEG(r, maxN))
+	}
+	// 3b. sequences of Contract / SplitEdge applied in place (contractions leave spare capacity, splits grow into it)
+	tseq := func(g EG, steps int) string {
+		n := g.N
+		var b strings.Builder
+		b.WriteString("c06 tseq " + g.Tokens())
+		for k := 0; k < steps; k++ {
+			contract := n >= 2 && (n >= 9 || r.Intn(2) == 0 || (k == 0 && r.Intn(2) == 0))
+			if n < 2 {
+				break
+			}
+			if contract {
+				i, j := r.Intn(n), r.Intn(n)
+				if r.Intn(3) != 0 && n >= 2 {
+					j = r.Intn(n - 1) // a vertex that is not the last one: the rows above it move down
+				}
+				fmt.Fprintf(&b, " c %d %d", i, j)
+				n--
+			} else {
+				i, j := r.Intn(n), r.Intn(n)
+				for j == i {
+					j = r.Intn(n)
+				}
+				fmt.Fprintf(&b, " s %d %d", i, j)
+				n++
+			}
+		}
+		return b.String()
+	}
+	for n := 3; n <= 8; n++ {
+		k := randomEG(r, n, 2) // complete
+		emit(tseq(k, 2))
+		emit(tseq(k, 2+r.Intn(7)))
+		emit(fmt.Sprintf("c06 tseq %s c 0 1 s 0 1", k.Tokens()))
+		emit(fmt.Sprintf("c06 tseq %s c %d 0 s 0 %d c 0 0 s 1 0", k.Tokens(), n-1, n-2))
+	}
+	emit("c06 tseq 1 0 c 0 0")
+	emit("c06 tseq 2 1 0 1 s 0 1 s 0 2 c 2 3 c 0 1")
+	emit("c06 tseq 3 0 s 1 1")
+	tcases := 200
+	if thorough {
+		tcases = 20000
+	}
+	for c := 0; c < tcases; c++ {
+		var g EG
+		switch r.Intn(3) {
+		case 0:
+			g = randomEG(r, 2+r.Intn(7), 2)
+		case 1:
+			g = randomEG(r, 2+r.Intn(7), []float64{0.3, 0.5, 0.8}[r.Intn(3)])
+		default:
+			g = namedEG(r, 8)
+		}
+		emit(tseq(g, 2+r.Intn(7)))
 	}
 	// 4. random generators over many seeds; Prüfer codes
 	for n := 0; n <= 8; n++ {
